@@ -29,6 +29,9 @@ const FORMATS: &[(&str, Format, Px)] = &[
     ("R8G8_B8G8_UNORM", Format::R8G8_B8G8_UNORM, Px::B(4, 2, 1)),
     ("R8G8B8A8_UNORM", Format::R8G8B8A8_UNORM, Px::F(4)),
     ("BC3_UNORM", Format::BC3_UNORM, Px::B(16, 4, 4)),
+    // in-place converting copy paths (signed bytes into U8)
+    ("R8G8B8A8_SNORM", Format::R8G8B8A8_SNORM, Px::F(4)),
+    ("R8_SNORM", Format::R8_SNORM, Px::F(1)),
 ];
 
 fn format_by_name(n: &str) -> Option<(Format, Px)> {
